@@ -59,6 +59,8 @@ func (p *hPeer) SubscribeRecvMsg() (<-chan wire.Message, func()) {
 	p.nextSub++
 	p.subs[id] = ch
 	p.mu.Unlock()
+	// A worker subscribes before it takes its first job.
+	p.st.logEv(Event{K: "peer_subscribed", B: -1, R: -1, P: p.spec.Name})
 	return ch, func() {
 		p.mu.Lock()
 		delete(p.subs, id)
